@@ -40,6 +40,55 @@ MANIFEST = {
             "carry prod <> 0. Float rounding is outside the model: batched vs unbatched values are compared to 1e-12*max(1,|v|).",
 }
 
+# AST fingerprints (docstrings dropped; computed by /venv's python 3.12) of the anchored functions the model was written
+# against.  A difference is never an alarm by itself: the quick tier then runs with twice the random configurations and the
+# evidence says so (DESIGN 1.4).
+ANCHORS = {
+    "flowjax/distributions.py": {
+        "AbstractDistribution.log_prob": "45ac2a141f", "AbstractDistribution.sample": "43f2dbfa84",
+        "AbstractDistribution.sample_and_log_prob": "e29e43c0f9", "AbstractDistribution._vectorize": "8652f4d512",
+        "AbstractDistribution._get_sample_keys": "bb8291748f", "AbstractDistribution._sample_and_log_prob": "95cb98ac5d",
+    },
+    "flowjax/utils.py": {"_get_ufunc_signature": "59521a40cf", "arraylike_to_array": "b4eb8ea9bc"},
+}
+
+
+def changed_anchors():
+    import ast
+    import hashlib
+    import os
+
+    from harness import common
+
+    changed = []
+    for f, names in ANCHORS.items():
+        try:
+            tree = ast.parse(open(os.path.join(common.REPO, f)).read())
+        except (OSError, SyntaxError):
+            changed += list(names)
+            continue
+        defs = {}
+        for node in tree.body:
+            if isinstance(node, ast.FunctionDef):
+                defs[node.name] = node
+            if isinstance(node, ast.ClassDef):
+                for n in node.body:
+                    if isinstance(n, ast.FunctionDef):
+                        defs[node.name + "." + n.name] = n
+        for nm, want in names.items():
+            n = defs.get(nm)
+            if n is None:
+                changed.append(nm)
+                continue
+            b = n.body
+            if b and isinstance(b[0], ast.Expr) and isinstance(getattr(b[0], "value", None), ast.Constant) and isinstance(b[0].value.value, str):
+                b = b[1:]
+            src = ast.dump(ast.Module(body=b, type_ignores=[])) + ast.dump(n.args)
+            if hashlib.sha1(src.encode()).hexdigest()[:10] != want:
+                changed.append(nm)
+    return changed
+
+
 RTOL = 1e-12
 LP_TOL = 1e-7  # sample_and_log_prob's log-prob (forward path) vs log_prob of that sample (inverse path): oracle only
 _state = {}
@@ -124,6 +173,8 @@ def build_zoo(zoo_seed, only=None):
         loc, sc = arr(sh), arr(sh, 0.3)
         if want(nm):
             zoo[nm] = D(nm, Normal(loc, sc))
+    if want("StandardNormal[2]"):  # no bijection underneath: nothing but _vectorize checks its argument shapes
+        zoo["StandardNormal[2]"] = D("StandardNormal[2]", StandardNormal((2,)))
     for sh in [(), (3,)]:
         nm = f"StudentT{list(sh)}"
         df, loc, sc = arr(sh, 2.0), arr(sh), arr(sh, 0.3)
@@ -441,7 +492,7 @@ def derive(rng, out):
     return tuple(s)
 
 
-def gen_cases(ctx, zoo, zoo_seed):
+def gen_cases(ctx, zoo, zoo_seed, boost=1):
     rng = ctx.rng
     quick = ctx.quick
     cases = []
@@ -463,7 +514,7 @@ def gen_cases(ctx, zoo, zoo_seed):
         # ---------------- log_prob: pairs of batch shapes
         if quick:
             pairs = [((), ())]
-            for _ in range(2 if cond else 3):
+            for _ in range((2 if cond else 3) + 3 * (boost - 1)):
                 r = int(rng.integers(1, 4))
                 out = tuple(int(v) for v in rng.choice([2, 3], size=r))
                 if int(np.prod(out)) > 18:
@@ -526,6 +577,10 @@ def gen_cases(ctx, zoo, zoo_seed):
                 ss = ss[1:] if len(ss) > 1 else (2,)
                 cb = cb[1:] if len(cb) > 1 else cb
             spairs.append((ss, cb) if cond else (ss + cb, ()))
+            for _ in range(3 * (boost - 1)):
+                a, b = pick(), (pick() if cond else ())
+                if int(np.prod(a + b, dtype=int)) <= 18:
+                    spairs.append((a if rng.random() < 0.7 else (), b))
             if heavy or not cond:
                 pass
             else:
@@ -612,7 +667,9 @@ def report(ctx, u, d, case, plan, status, outs, dis, errs, model_line):
         case={k: wit[k] for k in ("dist", "zoo_seed", "method", "tag", "data_seed", "x_shape", "c_shape", "ss") if k in wit} | {"const_cond": bool(wit.get("const_cond"))},
         found_input=found, unit=u.name, expected=model_line[:400], observed=_summ(status, outs),
         broken="correspondence batching-plan (Model.Vectorize.plan_logprob / plan_sample) / theorems C06_*",
-        reproducer="cd /verif && ./check C06 --replay <this file>   # rebuilds the distribution from (dist, zoo_seed), inputs from data_seed",
+        reproducer="cd /verif && ./check C06 --replay <this file> --no-build   # or: PYTHONPATH=$VERIF_REPO:/verif JAX_PLATFORMS=cpu /venv/bin/python -c \"from harness import common, c06; "
+                   "common.init_jax(); import json; c = json.load(open('<this file>'))['case']; d = c06.build_zoo(c['zoo_seed'], only=c['dist'])[c['dist']]; x, cond, key = c06.gen_inputs(d, c); "
+                   "print(c06.call_impl(d, c, x, cond, key))\"  (the distribution is rebuilt from (dist, zoo_seed), the inputs from data_seed)",
     )
 
 
@@ -712,7 +769,13 @@ def run(ctx):
     uo = ctx.unit("oracle", "the statement of C06 in plain NumPy on the implementation alone (np.broadcast_shapes/np.broadcast_to + loop over np.ndindex "
                             "calling the unbatched public method; shape law; no repeated draw; same key same result; log-prob of the returned sample); "
                             "non-trivial = at least two output elements")
-    cases = gen_cases(ctx, zoo, zoo_seed)
+    ch = changed_anchors()
+    if ch:
+        ctx.notes.append(f"anchored source differs from the fingerprints the model was written against: {ch}; "
+                         + ("quick tier run with the doubled random configuration volume" if ctx.quick else "thorough tier unchanged"))
+    else:
+        ctx.notes.append("AST fingerprints of the 8 anchored functions (distributions.py, utils.py) match the ones the model was written against")
+    cases = gen_cases(ctx, zoo, zoo_seed, boost=2 if (ch and ctx.quick) else 1)
     lines = ctx.model([model_request(zoo[c["dist"]], c) for c in cases])
     stats = {"elements": 0, "bit_identical": 0, "errkind_match": 0, "errkind_other": 0, "unbatched_calls": 0}
     n_extra = 0
